@@ -46,7 +46,7 @@ def run(ctx):
                                          n_seeded=1, n_seeded_thorough=None if i == 0 else 2,
                                          rs_thorough=(1.05, 1.5, 2.0, 3.5, 8.0) if i == 0 else (2.0, 3.5),
                                          depths_quick=(7, 6, 5, 4, 4), depths_thorough=(8, 8, 7, 6, 5),
-                                         long_runs=(i == 0), extras=(i == 0 or not ctx.thorough))
+                                         long_runs=(i == 0), extras=(i == 0))
         ctx = type(ctx)(ctx.tier, ctx.seed + 1)
     res, agg = solverexp.execute(tasks)
     # Solve with each shipped painting listener attached (they probe the objective and draw through the optimum when
